@@ -8,7 +8,7 @@ from vlib import core
 TRUST = ("Lean 4.33 kernel; axioms at most propext/Classical.choice/Quot.sound (audited per run); "
          "hand-written model tied to the C++ by the correspondence harness (differential, generator-bounded); ")
 MANIFEST = dict(
-  text=("Theorems (Props/C19.lean, 46) about an executable model of the importers and exporters. FIRST SENTENCE, FROM BYTES, for every "
+  text=("Theorems (Props/C19.lean, 48) about an executable model of the importers and exporters. FIRST SENTENCE, FROM BYTES, for every "
         "byte sequence and every configuration: the models of importSparseData (line splitting, PEG model of the record grammar, "
         "index-order check, dimension / zero-base / label logic, dense or sparse, classification or regression, any highestIndex and "
         "batch size) and of the three csvStringToData families (PEG model of the seven phrase_parse grammars, then row/label/batch "
@@ -42,7 +42,12 @@ MANIFEST = dict(
         "maximum batch size incl. 0: the exporter produces bytes, and importing them through the PEG model of the row grammar "
         "(skipper, `%` lists, eol handling, trailing line feed) yields the dataset with the same element count, dimensions and batch "
         "partition and every value = spirit's reading of its 11-digit rounding (readRows_csvRows / readRows_csvRegr in "
-        "Lemmas/ExportCsv.lean: the row reader reads a printed file token by token). "
+        "Lemmas/ExportCsv.lean: the row reader reads a printed file token by token); csv_export_import_bytes_class_first / _last — the "
+        "same for LabeledData<RealVector, unsigned int> with the label in the FIRST column (label grammar lexeme[int_ >> -('.' >> *'0') "
+        ">> !digit], then *(sep >> cell), rows % eol) and in the LAST column (the hand-written record loop around *(cell >> sep) >> label "
+        ">> (+eol|eoi): the cell loop backs off the label token, one record per phrase_parse call, readPointsLastLoop_print): the "
+        "imported labels are the exported ones (class 0 present), dimensions and batches as constructed. So the second sentence is "
+        "proved from bytes for every exporter/importer family, label position, batch size and every separator allowed by SepOk. "
         "The model — PEG-with-skipper interpreter, spirit 1.83's numeric lexers with every rounding of real_impl/scale, exact IEEE "
         "rounding, the post-parse logic, the exporters as BYTE printers (%.10e / %.10g / %.6g by exact decimal conversion, setw, inf/nan, "
         "label mappings, sortLabels, append) — is tied to the real code by exact line-by-line correspondence under ASan/UBSan + "
@@ -58,10 +63,11 @@ MANIFEST = dict(
        "(spirit's excess-digit path, not modelled) and, for the float scalar reader, anything but plain integers of <= 7 digits run for "
        "memory safety + oracle only; the formatting model fmtE/fmtG itself (= what iostream prints) is tied by exact correspondence, not "
        "proved; what IS proved is that the lexer model reads the printer model's bytes back as stated. Byte-level END-TO-END is proved for "
-       "exportSparseData/importSparseData (sortLabels off) and for exportCSV/csvStringToData with unlabelled data and vector labels, "
-       "separator not white space, field width 0; for CSV class labels (label grammars, LAST_COLUMN record loop), white-space "
-       "separators and setw padding the composition through the PEG grammars is correspondence + oracle (ops rt, xcsv), the theorems "
-       "being token level (csv_roundtrip) + per token + character set. "
+       "exportSparseData/importSparseData (sortLabels off) and for exportCSV/csvStringToData in all three families and both label "
+       "positions, for separators that are not white space (SepOk: also not NUL, not a character of a number, E, i/I, '(' ) and "
+       "field width 0; for white-space separators (the *Ws grammars) and setw padding the composition through the PEG grammars is "
+       "correspondence + oracle (ops rt, xcsv), the theorems being token level (csv_roundtrip*) + per token + character set; the "
+       "Data<FloatVector> variants differ by static_cast<float> of each value (correspondence). "
        "'Reproduces the data' therefore means: structure, labels, indices exactly; each value as the correctly rounded decimal with 11 "
        "(CSV) / 6 (LibSVM) significant digits read by spirit (two roundings for |exponent| > 22) — exact for integers and short decimals, "
        "not bit-exact in general; separators that are characters of a number (digits - + . e, and E after a plain %g number) are "
